@@ -116,6 +116,11 @@ Example C33_minified_relex_nonvacuous :
              minify1 true (renamable true st) src = Some (s2l "function f(a,b){let c=a+1,d=c*b;return{total:d,k:c/2};}").
 Proof. eexists. vm_compute. repeat split; reflexivity. Qed.
 
+Example C33_relex_strings_nonvacuous :
+  let ts := tokenize (s2l "let s = 'it\'s' + ""a // b"" + `t=${x}  y` ; f ( s , '' ) ;") in
+  wf [] ts = true /\ emit true ts = s2l "let s='it\'s'+""a // b""+`t=${x}  y`;f(s,'');".
+Proof. vm_compute. repeat split; reflexivity. Qed.
+
 Example C33_relex_lists_nonvacuous :
   let ts := tokenize (s2l "function f(a1,b){let x = a1 + +b - 1.5e3/2 ; return x>>>=2, x!==b ? x-- : b++ +a1 .5}") in
   wf [] ts = true /\ List.length (strip_ws ts) = 39%nat /\
